@@ -1,0 +1,101 @@
+//go:build verif
+
+package trig
+
+import (
+	"fmt"
+	"io"
+
+	"github.com/dpb587/rdfkit-go/encoding/trig/internal"
+)
+
+// Hooks for the verification harness in /verif (build tag "verif"): thin exported aliases of
+// unexported functions so that they can be tabulated over their whole domain (rune classifiers)
+// or run on chosen inputs (token producers).
+
+func VerifIsRunePNCharsBase(r rune) bool { return internal.IsRune_PN_CHARS_BASE(r) }
+func VerifIsRunePNCharsU(r rune) bool    { return internal.IsRune_PN_CHARS_U(r) }
+func VerifIsRunePNChars(r rune) bool     { return internal.IsRune_PN_CHARS(r) }
+func VerifHexDecode(r rune) (rune, bool) { return internal.HexDecode(r) }
+
+// VerifProduce reads the first rune from rd and runs the named token producer on it, as the
+// statement scanners do. It returns the token's values, the runes left in the decoder's buffer
+// and reader afterwards, and the producer's error.
+func VerifProduce(kind string, rd io.Reader) (values []string, rest string, err error) {
+	r, err := NewDecoder(rd)
+	if err != nil {
+		return nil, "", err
+	}
+
+	r0, err := r.buf.NextRune()
+	if err != nil {
+		return nil, "", err
+	}
+
+	switch kind {
+	case "iriref":
+		t, err := r.produceIRIREF(r0)
+		if err != nil {
+			return nil, "", err
+		}
+
+		values = []string{t.Decoded}
+	case "string":
+		t, err := r.produceString(r0)
+		if err != nil {
+			return nil, "", err
+		}
+
+		values = []string{t.Decoded}
+	case "pname_ns":
+		t, err := r.producePNAME_NS(r0)
+		if err != nil {
+			return nil, "", err
+		}
+
+		values = []string{t.DecodedString}
+	case "pname":
+		t, err := r.producePrefixedName(r0)
+		if err != nil {
+			return nil, "", err
+		}
+
+		values = []string{t.NamespaceDecoded, t.LocalDecoded}
+	case "bnode":
+		t, err := r.produceBlankNode(r0)
+		if err != nil {
+			return nil, "", err
+		}
+
+		values = []string{t.Decoded}
+	case "langtag":
+		t, err := r.produceLANGTAG(r0)
+		if err != nil {
+			return nil, "", err
+		}
+
+		values = []string{t.Decoded}
+	case "numeric":
+		t, err := r.produceNumericLiteral(r0)
+		if err != nil {
+			return nil, "", err
+		}
+
+		values = []string{t.GrammarRule.String(), t.Decoded}
+	default:
+		return nil, "", fmt.Errorf("unknown token kind %q", kind)
+	}
+
+	var left []rune
+
+	for {
+		rn, err := r.buf.NextRune()
+		if err != nil {
+			break
+		}
+
+		left = append(left, rn.Rune)
+	}
+
+	return values, string(left), nil
+}
